@@ -46,7 +46,7 @@ class C07(MotionMonitor):
     classes = [(3, "hostile-values", mk(hv=True, rel=True, inch=True, arcs=True, spell=True)),
                (3, "hostile-values-free-e", mk(hv=True, rel=True, inch=True, egrid=False, g92e_retracted=True, p_inside=0.5)),
                (2, "hostile-values-firmware", mk(hv=True, fw=True, rel=True, inch=True)),
-               (2, "plain", mk(rel=True, inch=True, arcs=True, at=True)),
+               (2, "plain", mk(rel=True, inch=True, arcs=True, at=True, retmove=True)),
                (1, "plain-g92e-retracted", mk(g92e_retracted=True, inch=True))]
 
     def settings_for(self, rnd, feats):
@@ -73,6 +73,8 @@ class C07(MotionMonitor):
         ext = settings.get("ext") if settings.get("ext") is not None else DEFAULT_EXT
         seen_inputs = set()
         pending = collections.OrderedDict()      # merge model: code -> OrderedDict(letter -> value) (latest per letter)
+        tr.case["_has_retract_on_move"] = any(r["kind"] == "g" and r.get("is_move") and
+                                               r["B_after"]["fil"] < r["B_before"]["fil"] - 1e-12 for r in tr.steps)
         for r in tr.steps:
             if r["kind"] == "g":
                 seen_inputs.add(r["cmd"])
@@ -179,7 +181,12 @@ class C07(MotionMonitor):
             else:
                 # owed recovery injected before a forwarded command: ends at the file's E before the command,
                 # and advances by the retraction physically outstanding on the printer
-                if not close(e1 * unit, r["B_before"]["e"]) or abs((e1 - e92) * unit - r["A_before"]["depth"]) > max(1e-7, 1e-9 * max(1.0, abs(e1 * unit), r["A_before"]["hi"])):
+                gap = (e1 - e92) * unit - r["A_before"]["depth"]
+                tol = max(1e-7, 1e-9 * max(1.0, abs(e1 * unit), r["A_before"]["hi"]))
+                # with retractions combined with moves (not tracked as retractions outside a region, by design) more filament
+                # may be outstanding than the retraction being recovered: then only "not more than outstanding" is demanded
+                wrong = gap > tol if tr.case.get("_has_retract_on_move") else abs(gap) > tol
+                if not close(e1 * unit, r["B_before"]["e"]) or wrong or e1 <= e92:
                     out.append(viol(tr, r, "recovery-pair-values", "%r: file E before the command %r mm, outstanding retraction %r mm, unit %r"
                                     % (gen, r["B_before"]["e"], r["A_before"]["depth"], unit)))
         elif codes == ["G92"]:
